@@ -56,6 +56,24 @@ Proof. exact splice_spec. Qed.
 Theorem C08_into_iter_leaves_nothing : forall dp l kf kb, final (op_into_iter dp l kf kb) = [].
 Proof. exact into_iter_leaves_nothing. Qed.
 
+(* growth by a producer, when nothing panics, is the std::vec::Vec function *)
+Theorem C08_extend_is_std : forall l ids, final (op_extend_iter (fun _ => false) l ids) = l ++ ids /\
+  unwound (op_extend_iter (fun _ => false) l ids) = false.
+Proof. exact extend_is_std. Qed.
+Theorem C08_resize_with_is_std : forall dp l new_len ids, new_len - length l <= length ids ->
+  let o := op_resize_with (fun _ => false) dp l new_len ids in
+  final o = firstn new_len l ++ firstn (new_len - length l) ids /\ length (final o) = new_len.
+Proof. exact resize_with_is_std. Qed.
+Theorem C08_resize_is_std : forall dp l new_len ids v, new_len - length l - 1 <= length ids ->
+  let o := op_resize (fun _ => false) dp l new_len ids v in
+  (length l < new_len -> final o = l ++ firstn (new_len - length l - 1) ids ++ [v] /\ dropped o = []) /\
+  (new_len <= length l -> final o = firstn new_len l) /\ length (final o) = new_len.
+Proof. exact resize_is_std. Qed.
+Theorem C08_dedup_by_key_is_std : forall (kf : nat -> nat) dp x r, (forall y, dp y = false) ->
+  final (op_dedup_by_key (fun _ e => Some (kf e)) dp (x :: r)) =
+  x :: dedup_ref (fun _ e prev => Nat.eqb (kf e) (kf prev)) 0 x r.
+Proof. exact dedup_by_key_is_std. Qed.
+
 (* ---- capacity (VecCap.v): Z-valued lengths and capacities, `grant` = the allocator's answer,
    `got` = the capacity a MutBumpVec(Rev) is handed (the rest of the chunk; 0 for BumpVec) *)
 Open Scope Z_scope.
@@ -178,3 +196,7 @@ Print Assumptions C08_fixed_push_fails_iff_full.
 Print Assumptions C08_shrink_to_bounds.
 Print Assumptions C08_zst_vector_never_overflows.
 Print Assumptions C08_min_non_zero_cap_is_the_code.
+Print Assumptions C08_extend_is_std.
+Print Assumptions C08_resize_with_is_std.
+Print Assumptions C08_resize_is_std.
+Print Assumptions C08_dedup_by_key_is_std.
